@@ -320,7 +320,11 @@ func C07(c *core.Ctx) error {
 		c.Ev.Add("evaluations", 1)
 		c.Ev.Distinct("states", s.id)
 		replay := map[string]any{"scenario": s.id, "files": files, "exit": r.Exit, "expected_mocks": s.expect}
-		if r.Panicked() || r.TimedOut {
+		if core.ResourceFailure(r) {
+			c.Skip("%s: run timed out or was killed", s.id)
+			return
+		}
+		if r.Panicked() {
 			c.Report("crash:"+s.id, "mockery crashed: "+firstN(r.Stderr, 700), replay)
 			return
 		}
